@@ -18,7 +18,9 @@ def universe():
          gen.vset([]), gen.vset([gen.vlong(1)]), gen.vset([gen.vbool(True)]), gen.vset([gen.vlong(1), gen.vlong(0)]),
          gen.vset([gen.vbool(True), gen.vlong(0)]), gen.vset([gen.vlong(-1), gen.vlong(2)]), gen.vset([gen.vlong(1), gen.vlong(-1), gen.vlong(1)]),
          gen.vrec([]), gen.vrec([('a', gen.vlong(1))]), gen.vrec([('a', gen.vbool(True))]),
-         gen.vip(gen.IPS[0]), gen.vip(gen.IPS[1])]
+         gen.vip(gen.IPS[0]), gen.vip(gen.IPS[1]),
+         # longs a float64 cannot tell apart, alone and inside a set and a record (their JSON forms must decode to unequal values)
+         gen.vlong(2 ** 53), gen.vlong(2 ** 53 + 1), gen.vset([gen.vlong(2 ** 53), gen.vlong(2 ** 53 + 1)]), gen.vrec([('n', gen.vlong(2 ** 53 + 1))]), gen.vrec([('n', gen.vlong(2 ** 53))])]
     return u
 
 
@@ -51,8 +53,8 @@ def run(ctx):
         n += 1
         cases.append(case('o%d' % n, 'setorder', vals))
     ctx.rule = ('all sequences of <=%d values over a 13-value universe whose members collide in the hash (true/1/decimal 0.0001/1ms/datetime 1; '
-                'false/0; -1 family whose probe sequence wraps at 2^64) and random sequences of 0-8 values over a 29-value universe incl. nested '
-                'sets and records, colliding entity uids and ip addresses; each checked for len, membership of 29 probes, equality under '
+                'false/0; -1 family whose probe sequence wraps at 2^64) and random sequences of 0-8 values over a 34-value universe incl. nested '
+                'sets and records, colliding entity uids and ip addresses; each checked for len, membership of 34 probes, equality under '
                 'reversal and duplication, the full probe x probe equality matrix (reflexive/symmetric), Slice/All/Contains consistency, record '
                 'equality, immutability under mutation of constructor inputs and accessor outputs, and the member order of the marshalled set '
                 '(= ascending slot order of the real hashes) against the table model. non-trivial = at least two values' % maxlen)
